@@ -31,7 +31,8 @@
      encode_items  : list item -> bytes ;  encode_pairs : list (item*item) -> bytes
      encode_chunks : N (*major*) -> list bytes -> bytes
      item_ok       : item -> bool   (recorded shape is encodable: byte values < 256, arguments and
-                                     lengths < 2^64, simple value in 0..23/32..255, float bits fit)
+                                     definite lengths < 2^64, simple value in 0..23/32..255, float bits fit;
+                                     every item parsed from a byte string satisfies it: parse_item_ok)
    Canonical form
      canon_item3 (indef_arr indef_map chunked : bool) : item -> bool  (where indefinite is tolerated)
      canon_item  (allow_indef_lists allow_chunked : bool) : item -> bool   (maps always definite)
@@ -251,9 +252,9 @@ Fixpoint item_ok (it : item) : bool :=
   | IUint n | INint n => n <? two64
   | IBytes b | IText b => chunk_ok b
   | IBytesChunked cs | ITextChunked cs => forallb chunk_ok cs
-  | IArray _ xs => (len xs <? two64) && forallb item_ok xs
-  | IMap _ kvs =>
-      (len kvs <? two64) && forallb (fun kv => match kv with (k, v) => item_ok k && item_ok v end) kvs
+  | IArray d xs => (if d then len xs <? two64 else true) && forallb item_ok xs
+  | IMap d kvs =>
+      (if d then len kvs <? two64 else true) && forallb (fun kv => match kv with (k, v) => item_ok k && item_ok v end) kvs
   | ITag t x => (t <? two64) && item_ok x
   | ISimple n => (n <? 24) || ((32 <=? n) && (n <? 256))
   | IFloat F16 v => v <? 65536
